@@ -228,11 +228,14 @@ def gen_query(rng, size):
     return start, length, bs
 
 
-def check_one(ctx, rig, fobj, data, alg, q, findings):
-    """Run one query; oracle; returns (model case, canonical impl output) or None."""
+def check_one(ctx, rig, fobj, data, alg, q, findings, report=None, changed=False):
+    """Run one query; oracle; returns (model case, canonical impl output) or None.
+    `report`: the case to put in a replay instead of the single query (a whole sequence);
+    `changed`: the file was modified since an earlier check on this handle."""
     size = len(data)
     start, length, bs = q
-    case = {"size": size, "start": start, "length": length, "block_size": bs, "alg": alg}
+    mcase = {"size": size, "start": start, "length": length, "block_size": bs, "alg": alg}
+    case = mcase if report is None else dict(report, failing_query=mcase)
     res = call_check(rig, fobj, alg, start, length, bs)
     blocks = spec_blocks(size, start, length, bs)
     if res[0] == "hang":
@@ -251,7 +254,7 @@ def check_one(ctx, rig, fobj, data, alg, q, findings):
             findings.append("status")
             ctx.fail("check-file-refused", "check-file answered with an error for a valid range", case=case,
                      expected="%d digests" % len(blocks), observed=res[1])
-        return case, canon
+        return mcase, canon
     digest = res[1]
     canon = [len(groups)]
     for g in groups:
@@ -262,18 +265,105 @@ def check_one(ctx, rig, fobj, data, alg, q, findings):
         findings.append("status")
         ctx.fail("check-file-small-block-accepted", "effective block size below 256 was not refused", case=case,
                  expected="IOError", observed=digest[:64])
-        return case, canon
+        return mcase, canon
     h = getattr(hashlib, alg)
     want = b"".join(h(data[o:o + n]).digest() for o, n in blocks)
     if digest != want:
         findings.append("digest")
-        ctx.fail("check-file-wrong-digest",
-                 "check-file digests differ from %s over the consecutive blocks of the requested range" % alg,
+        ctx.fail("check-file-stale-after-file-changed" if changed else "check-file-wrong-digest",
+                 ("after the file changed, a later check-file on the same handle does not hash the file as it is now "
+                  "(%s over the consecutive blocks of the requested range)" if changed else
+                  "check-file digests differ from %s over the consecutive blocks of the requested range") % alg,
                  case=case, expected={"blocks": blocks[:8], "nblocks": len(blocks), "digests": want[:64]},
                  observed={"len": len(digest), "digests": digest[:64], "reads": [r for g in groups for r in g][:12]})
     if stray:
         ctx.disagree("server read the file outside a hash object", case=case, impl=stray)
-    return case, canon
+    return mcase, canon
+
+
+# ---- several requests on ONE handle with the file changing in between ---------------------------
+
+def seq_bytes(seed, i, n):
+    import random
+    return random.Random("%s-%d" % (seed, i)).randbytes(n)
+
+
+def gen_seq(rng):
+    size = rng.choice([300, 1000, 5000, 9000, CHUNK, CHUNK + 5, 70000, 200000, rng.randrange(256, 300000)])
+    size0 = size
+    steps = []
+    n = rng.randrange(2, 5)
+    for i in range(n):
+        start = rng.choice([0, 0, 0, rng.randrange(0, size + 1), max(0, size - 300)])
+        rest = max(0, size - start)
+        length = rng.choice([0, 0, 0, 0, rest, rest + 1000, rng.randrange(0, rest + 1)])
+        eff = rest if length == 0 else min(length, rest)
+        bs = rng.choice([0, 0, 256, 1000, 4096, CHUNK, CHUNK + 1, rng.randrange(256, max(257, eff + 2))])
+        if bs >= 256 and eff // bs > 100:
+            bs = eff // 100 + 1
+        steps.append({"kind": "check", "alg": rng.choice(["md5", "sha1"]), "start": start, "length": length,
+                      "block_size": bs})
+        if i < n - 1:
+            k = rng.choice(["append-handle", "append-handle", "append-local", "append-local", "overwrite-handle",
+                            "none"])
+            if k.startswith("append"):
+                m = rng.choice([1, 255, 256, 1000, CHUNK, rng.randrange(1, 100000)])
+                steps.append({"kind": k, "n": m})
+                size += m
+            elif k == "overwrite-handle" and size > 0:
+                off = rng.randrange(0, size)
+                m = min(size - off, rng.choice([1, 100, 5000, CHUNK]))
+                steps.append({"kind": k, "off": off, "n": m})
+    return {"seq": True, "size0": size0, "data_seed": rng.randrange(1 << 30), "steps": steps}
+
+
+def run_seq(ctx, rig_box, root, repo, case, findings, cases, name="q"):
+    """check -> change -> check ... on one open handle; every check against the file as it is then."""
+    data = bytearray(seq_bytes(case["data_seed"], -1, case["size0"]))
+    path = os.path.join(root, name)
+    with open(path, "wb") as fh:
+        fh.write(data)
+    fobj = rig_box[0].sftp.open("/" + name, "r+")
+    changed = False
+    try:
+        for i, st in enumerate(case["steps"]):
+            k = st["kind"]
+            if k == "check":
+                r = check_one(ctx, rig_box[0], fobj, bytes(data), st["alg"],
+                              (st["start"], st["length"], st["block_size"]), findings, report=case, changed=changed)
+                if r is not None:
+                    cases.append(r)
+                if rig_box[0].abort:
+                    rig_box[0].close()
+                    rig_box[0] = Rig(repo, root)
+                    return
+            elif k.startswith("append"):
+                blob = seq_bytes(case["data_seed"], i, st["n"])
+                if k == "append-handle":
+                    fobj.seek(len(data))
+                    fobj.write(blob)
+                    fobj.flush()
+                else:
+                    with open(path, "ab") as fh:
+                        fh.write(blob)
+                data += blob
+                changed = True
+            elif k == "overwrite-handle":
+                blob = seq_bytes(case["data_seed"], i, st["n"])
+                fobj.seek(st["off"])
+                fobj.write(blob)
+                fobj.flush()
+                data[st["off"]:st["off"] + len(blob)] = blob
+                changed = True
+    finally:
+        try:
+            fobj.close()
+        except Exception:
+            pass
+        try:
+            os.remove(path)
+        except OSError:
+            pass
 
 
 def run_queries(ctx, rig_box, root, repo, sizes, nq, findings, cases):
@@ -326,7 +416,10 @@ def run(ctx):
                 "the 64 KiB read chunk); per file, (offset, length, block_size) with offsets at/around chunk "
                 "multiples and EOF, lengths 0 / to EOF / past EOF / chunk multiples / 2^40, block sizes 0, 256.., "
                 "(non-)multiples of 64 KiB, < 256 (must be refused); md5 and sha1 alternating; every call under a "
-                "%.0f s watchdog; a case is non-trivial when distinct and at least one block is hashed" % WATCHDOG)
+                "%.0f s watchdog; plus sequences on ONE open handle: check, the file grows (write through the handle or by "
+                "another writer) or is overwritten through the handle, check again (2-4 checks, mostly length 0), every "
+                "check compared with the file as it is then; a case is non-trivial when distinct and at least one block "
+                "is hashed" % WATCHDOG)
     ctx.trusted += ["model coq/Model/C32.v is hand-written; tied to SFTPServer._check_file by this run: per-digest "
                     "read trace (offset, requested length) of the real server == model (vm_compute), digests == hashlib",
                     "hash objects modelled as hash of the concatenated update() arguments (hashlib's contract)",
@@ -343,8 +436,26 @@ def run(ctx):
     findings, cases = [], []
     try:
         rig_box[0] = Rig(ctx.repo, root)
-        run_queries(ctx, rig_box, root, ctx.repo, gen_sizes(ctx.rng, 10 * scale), 30 if not ctx.thorough else 45,
-                    findings, cases)
+        ok = run_queries(ctx, rig_box, root, ctx.repo, gen_sizes(ctx.rng, 10 * scale),
+                         30 if not ctx.thorough else 45, findings, cases)
+        if ok is not False or findings.count("hang") < 2:
+            if rig_box[0].abort:
+                rig_box[0] = Rig(ctx.repo, root)
+            for i in range(25 * scale):
+                case = gen_seq(ctx.rng)
+                if i == 0:      # the plain pattern: whole-file hash, file grows, whole-file hash again
+                    case = {"seq": True, "size0": 5000, "data_seed": 7, "steps": [
+                        {"kind": "check", "alg": "md5", "start": 0, "length": 0, "block_size": 0},
+                        {"kind": "append-handle", "n": 3000},
+                        {"kind": "check", "alg": "md5", "start": 0, "length": 0, "block_size": 0},
+                        {"kind": "append-local", "n": 70000},
+                        {"kind": "check", "alg": "sha1", "start": 100, "length": 0, "block_size": 4096}]}
+                ctx.count(repr(sorted(case.items())), nontrivial=True, kind="sequence-on-one-handle")
+                run_seq(ctx, rig_box, root, ctx.repo, case, findings, cases)
+                if i == 0:
+                    ctx.sample({"sequence": case})
+                if len(findings) >= 12 or findings.count("hang") >= 3:
+                    break
     finally:
         if rig_box[0]:
             rig_box[0].close()
@@ -364,6 +475,21 @@ def run(ctx):
 
 def replay(ctx, rep):
     case = rep.get("case") or {}
+    if case.get("seq"):
+        root = tempfile.mkdtemp(prefix="verif-c32-")
+        rig_box = [None]
+        try:
+            rig_box[0] = Rig(ctx.repo, root)
+            seq = {k: v for k, v in case.items() if k != "failing_query"}
+            for j in range(2):
+                ctx.count(("replay-seq", j, repr(sorted(seq.items()))))
+                run_seq(ctx, rig_box, root, ctx.repo, seq, [], [], name="r%d" % j)
+        finally:
+            if rig_box[0]:
+                rig_box[0].close()
+            uninstall()
+            shutil.rmtree(root, ignore_errors=True)
+        return
     if not all(k in case for k in ("size", "start", "length", "block_size", "alg")):
         return run(ctx)
     root = tempfile.mkdtemp(prefix="verif-c32-")
